@@ -411,6 +411,21 @@ pub fn build(aux: &J) -> W3Prog {
             expect.push_str(if m.contains_key(&nk) { "true\n" } else { "false\n" });
             observations.push("print-mutate-print".into());
         }
+        // pairs kept beyond their iteration: every iteration hands out its own [key, value]
+        if rng.chance(1, 4) {
+            text.push_str(&format!("ps{oi} := []\nfor p in {a} {{\n    ps{oi} += [p]\n}}\nprint(ps{oi})\n"));
+            let pairs: Vec<Val> = m.iter().map(|(k, v)| Val::List(vec![Val::Str(k.clone()), v.clone()])).collect();
+            expect.push_str(&render(&Val::List(pairs)));
+            expect.push('\n');
+            observations.push("for-kept-pairs".into());
+        }
+        // the same object far below the operands of `==`: two chains of 130 wrappers
+        if rng.chance(1, 25) {
+            text.push_str(&format!("da{oi} := {a}\ndb{oi} := {b}\ndi{oi} := 0\nwhile di{oi} < 130 {{\n    da{oi} = {{\"n\": da{oi}}}\n    db{oi} = [db{oi}]\n    di{oi} += 1\n}}\n"));
+            text.push_str(&format!("dc{oi} := {b}\ndi{oi} = 0\nwhile di{oi} < 130 {{\n    dc{oi} = {{\"n\": dc{oi}}}\n    di{oi} += 1\n}}\nprint(da{oi} == dc{oi})\nprint(da{oi} != dc{oi})\n"));
+            expect.push_str("true\nfalse\n");
+            observations.push("==-deep".into());
+        }
         if let Some(k) = keys.first() {
             if rng.chance(1, 2) {
                 text.push_str(&format!("print({b}[{}])\n", lit_str(k)));
